@@ -10,9 +10,9 @@ namespace Rtp.Props.C02
 open Rtp Rtp.Model Rtp.Pred Rtp.Pred.C02 Rtp.Proofs.PacketParse
 
 /-- main theorem, in the shape the driver evaluates on the real code: for every input and every
-    earlier input decoded into the same receivers, the model's observation satisfies the predicate
+    sequence of earlier inputs decoded into the same receivers, the model's observation satisfies the predicate
     (no panic; bounded; values are the input bytes at the reported offsets; reused = fresh). -/
-theorem c02_pred_model (buf : Bytes) (prev : Option Bytes) :
+theorem c02_pred_model (buf : Bytes) (prev : List Bytes) :
     Pred.C02.pred buf prev (Pred.C02.modelObs buf prev) = true := by
   simp only [Pred.C02.pred, holds, modelObs, Bool.and_eq_true, beq_iff_eq]
   exact ⟨recvHolds_model {} {} rfl buf, modelRecv_receiver _ _ buf⟩
